@@ -457,3 +457,28 @@ def added_elements(call):
                 and isinstance(a.args[0], (ast.Tuple, ast.List, ast.Set)):
             return norm(call.func.value), list(a.args[0].elts)
     return None
+
+
+def arm_when(ifnode, truth=True):
+    """Statements executed when the test of `ifnode` has the given truth value, for either layout of a two-way decision:
+    the body (truth=True) / the else arm, plus - when the other arm leaves the block (return / raise / continue / break) - the
+    statements that follow the `if` in its block.  A leading `not` in the test is taken into account."""
+    t = ifnode.test
+    if isinstance(t, ast.UnaryOp) and isinstance(t.op, ast.Not):
+        truth = not truth
+    first, other = (ifnode.body, ifnode.orelse) if truth else (ifnode.orelse, ifnode.body)
+    out = list(first)
+    leaves = bool(other) and isinstance(other[-1], (ast.Return, ast.Raise, ast.Continue, ast.Break))
+    if leaves or (not other and False):
+        par = getattr(ifnode, "_parent", None)
+        for fld in ("body", "orelse", "finalbody"):
+            sib = getattr(par, fld, None)
+            if isinstance(sib, list) and ifnode in sib:
+                out += sib[sib.index(ifnode) + 1:]
+    return out
+
+
+def positive_test(ifnode):
+    """the test of `ifnode` without a leading `not`"""
+    t = ifnode.test
+    return t.operand if isinstance(t, ast.UnaryOp) and isinstance(t.op, ast.Not) else t
